@@ -118,7 +118,7 @@ func genC11(t *rapid.T) c11Case {
 		return c10KV{K: genC10Full().Draw(t, "k"), V: genC10Val().Draw(t, "v")}
 	})
 	c := c11Case{Mode: "shim"}
-	switch (rapid.Uint64().Draw(t, "mode") * 0x9E3779B97F4A7C15) >> 57 { // 0..127, unbiased by rapid's small-int preference
+	switch (rapid.Uint64().Draw(t, "mode") * 0x9E3779B97F4A7C15) >> 56 { // 0..255, hashed because rapid prefers small ints
 	case 0x2a:
 		c.Mode = "mem" // production constructors (4 MiB arenas)
 	case 0x55:
@@ -191,7 +191,7 @@ type c11Chain struct {
 }
 
 func (ch *c11Chain) newOverlay() *overlaydb.OverlayDB {
-	if ch.mode == "shim" {
+	if ch.mode != "mem" {
 		return overlaydb.VerifNewOverlayDB(ch.persist, 256, 4)
 	}
 	return ch.ss.NewOverlayDB() // what executeBlock does
@@ -259,7 +259,8 @@ type c11Trace struct {
 }
 
 // realise executes one realisation of net on a fresh overlay+cache pair and returns the overlay.
-func realise(ctx *onceCtx, ch *c11Chain, net []kvPair, r c11Real) (*overlaydb.OverlayDB, *c11Trace) {
+// persisted are the keys currently stored under the chain (read-only noise also targets them).
+func realise(ctx *onceCtx, ch *c11Chain, net []kvPair, r c11Real, persisted map[string][]byte) (*overlaydb.OverlayDB, *c11Trace) {
 	overlay := ch.newOverlay()
 	cache := storage.NewCacheDB(overlay)
 	netIdx := map[string]int{}
@@ -271,6 +272,12 @@ func realise(ctx *onceCtx, ch *c11Chain, net []kvPair, r c11Real) (*overlaydb.Ov
 	for _, k := range c11Outside {
 		if _, in := netIdx[string(k)]; !in {
 			pool = append(pool, k)
+		}
+	}
+	readPool := append([][]byte{}, pool...)
+	for _, e := range sortedModel(persisted) {
+		if _, in := netIdx[string(e.k)]; !in {
+			readPool = append(readPool, e.k)
 		}
 	}
 	blk, tx := map[string][]byte{}, map[string][]byte{}
@@ -334,7 +341,7 @@ func realise(ctx *onceCtx, ch *c11Chain, net []kvPair, r c11Real) (*overlaydb.Ov
 			cache.Reset()
 			tx = map[string][]byte{}
 		case "get":
-			k := pool[s.I%len(pool)]
+			k := readPool[s.I%len(readPool)]
 			if s.Tx && k[0] == stPrefix {
 				cache.Get(k[1:])
 			} else {
@@ -441,7 +448,7 @@ func runC11Body(ctx0 *ev.Ctx, c c11Case) {
 		var roots []common.Uint256
 		for ci, ch := range chains {
 			where := fmt.Sprintf("block %d (height %d) chain %s:", bi, height, ch.name)
-			overlay, tr := realise(ctx, ch, net, reals[ci])
+			overlay, tr := realise(ctx, ch, net, reals[ci], stored[ci])
 			traces = append(traces, tr)
 			got := overlay.ChangeHash()
 			if got != want {
@@ -456,7 +463,7 @@ func runC11Body(ctx0 *ev.Ctx, c c11Case) {
 			}
 			if ci == 0 {
 				// the same sequence on another fresh overlay
-				o2, _ := realise(ctx, ch, net, reals[ci])
+				o2, _ := realise(ctx, ch, net, reals[ci], stored[ci])
 				if h2 := o2.ChangeHash(); h2 != got {
 					ctx.Failf("%s re-executing the same write sequence gives digest %x, first run %x", where, h2[:], got[:])
 				}
